@@ -4,6 +4,9 @@ import (
 	"encoding/json"
 	"flag"
 	"fmt"
+	"go/types"
+
+	"golang.org/x/tools/go/ssa"
 	"os"
 	"path/filepath"
 	"regexp"
@@ -94,6 +97,7 @@ type checkResult struct {
 	Funcs       []*FuncResult
 	Violations  []violation
 	Known       []string
+	KnownReplays []interface{}
 	Stats       SolveStats
 	Orphans     []string
 	Lemmas      int
@@ -191,6 +195,13 @@ func cmdCheck(args []string) {
 				fmt.Printf("KNOWN-FINDING: property=%s %s (obligation %s)\n", *prop, kf.What, g.Name)
 				res.Known = append(res.Known, g.Name)
 				matched = true
+				if *tier == "thorough" {
+					// confirm that the finding is still real on the current tree
+					if ok, d := tryReplay(w, res, g, g.Failed[0], nil, *repo, ""); d != nil {
+						fmt.Printf("  known finding re-replayed on the real code: reproduced=%v\n", ok)
+						res.KnownReplays = append(res.KnownReplays, map[string]interface{}{"obligation": g.Name, "reproduced": ok, "driver": d["driver"]})
+					}
+				}
 				break
 			}
 		}
@@ -337,6 +348,7 @@ func runProperty(w *World, res *checkResult, thorough bool, timeoutMs int) {
 		all = append(all, o)
 		res.Lemmas++
 	}
+	all = append(all, w.writersObligations(p)...)
 	w.solve(all, timeoutMs, thorough, &res.Stats)
 	// group by name
 	groups := map[string]*oblGroup{}
@@ -550,6 +562,7 @@ func writeEvidence(w *World, res *checkResult, path string, seed int) {
 		"solver_queries":           res.Stats.Queries,
 		"load_seconds":             round2(res.LoadSecs),
 		"known_findings":           res.Known,
+		"known_finding_replays":    res.KnownReplays,
 		"samples":                  samples,
 		"contract_files":           w.cs.Files,
 	}
@@ -575,3 +588,68 @@ func writeEvidence(w *World, res *checkResult, path string, seed int) {
 }
 
 func round2(f float64) float64 { return float64(int(f*100+0.5)) / 100 }
+
+// writersObligations checks the `writers` declarations tagged with property p: a syntactic scan of every
+// function of the module for stores to the declared field.
+func (w *World) writersObligations(p string) []*Obligation {
+	var out []*Obligation
+	for _, wd := range w.cs.Writers {
+		if !hasTag(wd.Tags, p) {
+			continue
+		}
+		allowed := map[string]bool{}
+		for _, f := range wd.Funcs {
+			allowed[f] = true
+		}
+		var offenders []string
+		seenAllowed := map[string]bool{}
+		for key, fn := range w.funcs {
+			if fn.Pkg == nil || !strings.HasPrefix(fn.Pkg.Pkg.Path(), modPath) || fn.Blocks == nil {
+				continue
+			}
+			for _, b := range fn.Blocks {
+				for _, ins := range b.Instrs {
+					st, ok := ins.(*ssa.Store)
+					if !ok {
+						continue
+					}
+					fa, ok := st.Addr.(*ssa.FieldAddr)
+					if !ok {
+						continue
+					}
+					pt, ok := fa.X.Type().Underlying().(*types.Pointer)
+					if !ok {
+						continue
+					}
+					if _, ok := pt.Elem().Underlying().(*types.Struct); !ok {
+						continue
+					}
+					if fieldClass(pt.Elem(), fa.Field) != wd.Field {
+						continue
+					}
+					name := shortKey(key)
+					// match by method/function name suffix
+					okFn := false
+					for a := range allowed {
+						if strings.HasSuffix(name, a) {
+							okFn = true
+							seenAllowed[a] = true
+						}
+					}
+					if !okFn {
+						offenders = append(offenders, name+" ("+w.prog.Fset.Position(st.Pos()).String()+")")
+					}
+				}
+			}
+		}
+		sort.Strings(offenders)
+		o := &Obligation{Name: "writers:" + shortKey(wd.Field), Fn: "writers", Kind: "writers", Tags: wd.Tags, Goal: "true", Src: "only " + strings.Join(wd.Funcs, ", ") + " store to " + shortKey(wd.Field), Status: "trivial"}
+		if len(offenders) > 0 {
+			o.Status, o.Solver = "sat", "syntactic"
+			o.Output = "stores outside the declared writers: " + strings.Join(offenders, "; ")
+			o.Goal = "false"
+		}
+		out = append(out, o)
+	}
+	return out
+}
